@@ -62,7 +62,7 @@ func pruneStruct(ss *structSchema, src, dst reflect.Value, rest, acc vpath) (vpa
 			out, found = acc.with(e), true
 			continue
 		}
-		if !a.optional {
+		if a.required() {
 			simpleValue(a, dst.Field(a.idx))
 		}
 	}
